@@ -123,6 +123,14 @@ and parse_arr (t : string list) : areqs * string list =
       | ["g"; tg] -> (AGet (target_of tg), rest)
       | ["b"; n] -> (ABin (nat_of_int (int_of_string n)), rest)
       | ["e"] -> (AEnd, rest)
+      | ["x"; c] -> (AThrow (match c with "R" -> SERange | "O" -> SE EOverflow | _ -> SE EMismatch), rest)
+      | ["t"] ->
+        (match rest with
+         | "(" :: r1 -> let (body, r2) = parse_arr r1 in
+           (match body, r2 with
+            | ACons (a, ANil), ")" :: r3 -> (ATry a, r3)
+            | _ -> failwith "t,(,one item,) expected")
+         | _ -> failwith "( expected")
       | ["o"] ->
         (match rest with
          | "(" :: r1 -> let (body, r2) = parse_obj r1 in
@@ -164,6 +172,7 @@ let tok_text = function
   | KByte b -> "x" ^ hex_of_n b
   | KKeys ks -> "K[" ^ String.concat ";" (List.map key_text ks) ^ "]"
   | KIsEnd b -> if b then "E1" else "E0"
+  | KCaught -> "C"
 
 let toks_text l = if l = [] then "-" else String.concat "," (List.map tok_text l)
 
